@@ -26,6 +26,13 @@ const (
 	ShapeUnk = "unk" // known items + unknown ones (unknown topic u, unknown partition t/7, group / id that does not exist, broker 9)
 	ShapeDup = "dup" // known items + one of them a second time
 	ShapeOne = "one" // a single item (legacy single-item request form where the protocol has one)
+	// ShapeMix (topic-routed kinds only): known items + items that fail the
+	// metadata mapping with two DISTINCT errors: unknown topic u and unknown
+	// partition t/7 (UNKNOWN_TOPIC_OR_PARTITION) and topic d, which exists
+	// but which the client's user is denied (TOPIC_AUTHORIZATION_FAILED).
+	// The cluster of this shape runs with SASL and ACLs; the client is user
+	// alice, helpers are the superuser.
+	ShapeMix = "mix"
 )
 
 // Kind is one row of the table: a request kind the client splits.
@@ -73,6 +80,8 @@ func shapeTPs(shape string) []tps {
 		return []tps{{"t", []int32{0, 1, 2, 7}}, {"u", []int32{0}}, {"s", []int32{0}}}
 	case ShapeDup:
 		return []tps{{"t", []int32{0, 1, 2, 1}}, {"s", []int32{0}}}
+	case ShapeMix:
+		return []tps{{"t", []int32{0, 1, 2, 7}}, {"u", []int32{0, 1}}, {"d", []int32{0}}, {"s", []int32{0}}}
 	case ShapeOne:
 		return []tps{{"t", []int32{1}}}
 	}
@@ -476,6 +485,9 @@ var Kinds = []*Kind{
 			case ShapeDup:
 				mk(100, tps{"t", []int32{0, 1, 1}}, tps{"s", []int32{0}})
 				mk(101, tps{"t", []int32{1, 2}})
+			case ShapeMix:
+				mk(100, tps{"t", []int32{0, 1, 7}}, tps{"d", []int32{0}}, tps{"s", []int32{0}})
+				mk(101, tps{"t", []int32{1, 2}}, tps{"u", []int32{0, 1}})
 			case ShapeOne:
 				mk(101, tps{"t", []int32{1}})
 			}
